@@ -696,6 +696,293 @@ fn record(n: usize, out: &str) {
     rep.print();
 }
 
+
+// ---- growth families (thorough tier, observation only) ------------------------------------------
+// Events for Trace_Grow.tla: text conversions, tag conversions, floats from text, equality and
+// encoded length.  Values may also be of the variants Tags (items [g,e]) and Date/Time/DateTime
+// (items are DateTime!V records).
+
+fn v_rec(kind: &str, dprec: &str, y: u32, m: u32, d: u32, tprec: &str, h: u32, mi: u32, s: u32, tz: bool, off: i32) -> Value {
+    json!({"kind": kind, "dprec": dprec, "y": y, "m": m, "d": d, "tprec": tprec, "h": h, "mi": mi, "s": s, "f": 0, "fp": 0, "tz": tz, "off": off})
+}
+fn g_date(j: &Value) -> DicomDate {
+    let (y, m, d) = (j_usize(&j["y"]) as u16, j_usize(&j["m"]) as u8, j_usize(&j["d"]) as u8);
+    match j_str(&j["dprec"]) {
+        "Y" => DicomDate::from_y(y),
+        "M" => DicomDate::from_ym(y, m),
+        _ => DicomDate::from_ymd(y, m, d),
+    }
+    .expect("valid date")
+}
+fn g_time(j: &Value) -> DicomTime {
+    let (h, mi, s) = (j_usize(&j["h"]) as u8, j_usize(&j["mi"]) as u8, j_usize(&j["s"]) as u8);
+    match j_str(&j["tprec"]) {
+        "h" => DicomTime::from_h(h),
+        "m" => DicomTime::from_hm(h, mi),
+        _ => DicomTime::from_hms(h, mi, s),
+    }
+    .expect("valid time")
+}
+fn g_datetime(j: &Value) -> DicomDateTime {
+    use dicom_core::chrono::FixedOffset;
+    let date = g_date(j);
+    let tz = if j["tz"] == true { Some(FixedOffset::east_opt(j_i64(&j["off"]) as i32).unwrap()) } else { None };
+    if j["tprec"] == "none" {
+        match tz {
+            Some(o) => DicomDateTime::from_date_with_time_zone(date, o),
+            None => DicomDateTime::from_date(date),
+        }
+    } else {
+        match tz {
+            Some(o) => DicomDateTime::from_date_and_time_with_time_zone(date, g_time(j), o).unwrap(),
+            None => DicomDateTime::from_date_and_time(date, g_time(j)).unwrap(),
+        }
+    }
+}
+/// like `build`, with structured Tags / Date / Time / DateTime items
+fn g_build(v: &Value) -> PrimitiveValue {
+    let items = j_arr(&v["items"]);
+    match j_str(&v["var"]) {
+        "Tags" => PrimitiveValue::Tags(items.iter().map(|t| Tag(j_usize(&t[0]) as u16, j_usize(&t[1]) as u16)).collect()),
+        "Date" => PrimitiveValue::Date(items.iter().map(g_date).collect()),
+        "Time" => PrimitiveValue::Time(items.iter().map(g_time).collect()),
+        "DateTime" => PrimitiveValue::DateTime(items.iter().map(g_datetime).collect()),
+        _ => build(v),
+    }
+}
+
+fn g_rand_text(rng: &mut Rng) -> String {
+    let n = rng.below(7) as usize;
+    let mut s: String = (0..n)
+        .map(|_| match rng.below(12) {
+            0 => ' ',
+            1 => '\\',
+            2 => '^',
+            3 => *rng.pick(&['\u{e9}', '\u{4e2d}', '\u{1f600}']),
+            4 => *rng.pick(&['\t', '\n', '=']),
+            _ => char::from(rng.range(0x30, 0x7a) as u8),
+        })
+        .collect();
+    for _ in 0..rng.below(3) {
+        s.push(if rng.below(3) == 0 { '\0' } else { ' ' });
+    }
+    s
+}
+fn g_rand_date(rng: &mut Rng) -> Value {
+    let y = rng.below(10000) as u32;
+    let m = 1 + rng.below(12) as u32;
+    let d = 1 + rng.below(28) as u32;
+    match rng.below(3) {
+        0 => v_rec("DA", "Y", y, 0, 0, "none", 0, 0, 0, false, 0),
+        1 => v_rec("DA", "M", y, m, 0, "none", 0, 0, 0, false, 0),
+        _ => v_rec("DA", "D", y, m, d, "none", 0, 0, 0, false, 0),
+    }
+}
+fn g_rand_time(rng: &mut Rng) -> Value {
+    let (h, mi, s) = (rng.below(24) as u32, rng.below(60) as u32, rng.below(60) as u32);
+    match rng.below(3) {
+        0 => v_rec("TM", "none", 0, 0, 0, "h", h, 0, 0, false, 0),
+        1 => v_rec("TM", "none", 0, 0, 0, "m", h, mi, 0, false, 0),
+        _ => v_rec("TM", "none", 0, 0, 0, "s", h, mi, s, false, 0),
+    }
+}
+fn g_rand_datetime(rng: &mut Rng) -> Value {
+    let mut v = v_rec("DT", "D", rng.below(10000) as u32, 1 + rng.below(12) as u32, 1 + rng.below(28) as u32, "none", 0, 0, 0, false, 0);
+    if rng.coin() {
+        v["tprec"] = "s".into();
+        v["h"] = Value::from(rng.below(24));
+        v["mi"] = Value::from(rng.below(60));
+        v["s"] = Value::from(rng.below(60));
+    }
+    if rng.coin() {
+        v["tz"] = Value::from(true);
+        v["off"] = Value::from(900 * rng.range(-48, 56));
+    }
+    v
+}
+fn g_rand_value(rng: &mut Rng) -> Value {
+    let n = match rng.below(4) {
+        0 => 0,
+        1 => 1,
+        _ => 1 + rng.below(3),
+    } as usize;
+    match rng.below(12) {
+        0 => json!({"var": "Empty", "items": []}),
+        1 | 2 => json!({"var": "Str", "items": [cps_json(&g_rand_text(rng))]}),
+        3 | 4 | 5 => json!({"var": "Strs", "items": (0..n).map(|_| cps_json(&g_rand_text(rng))).collect::<Vec<_>>()}),
+        6 => json!({"var": "Tags", "items": (0..n).map(|_| json!([rng.below(65536), rng.below(65536)])).collect::<Vec<_>>()}),
+        7 => json!({"var": "Date", "items": (0..n).map(|_| g_rand_date(rng)).collect::<Vec<_>>()}),
+        8 => json!({"var": "Time", "items": (0..n).map(|_| g_rand_time(rng)).collect::<Vec<_>>()}),
+        9 => json!({"var": "DateTime", "items": (0..n).map(|_| g_rand_datetime(rng)).collect::<Vec<_>>()}),
+        _ => {
+            let mut v = rand_value(rng, 3);
+            while ["Tags", "Date", "Time", "DateTime"].contains(&j_str(&v["var"])) {
+                v = rand_value(rng, 3);
+            }
+            v
+        }
+    }
+}
+
+fn g_str_event(v: &Value) -> Value {
+    let pv = g_build(v);
+    let shape = shape(v);
+    let v2 = v.clone();
+    match catch(move || {
+        let val: Val = Val::from(pv.clone());
+        let elem: Elem = Elem::new(Tag(0x0008, 0x0008), VR::CS, pv.clone());
+        let to_str = pv.to_str().to_string();
+        let raw = pv.to_raw_str().to_string();
+        let multi: Vec<String> = pv.to_multi_str().to_vec();
+        let bytes: Vec<u8> = pv.to_bytes().to_vec();
+        let routediff = val.to_str().map(|x| x.to_string()).ok() != Some(to_str.clone())
+            || elem.to_str().map(|x| x.to_string()).ok() != Some(to_str.clone())
+            || val.to_multi_str().map(|x| x.to_vec()).ok() != Some(multi.clone())
+            || elem.to_bytes().map(|x| x.to_vec()).ok() != Some(bytes.clone())
+            || val.to_raw_str().map(|x| x.to_string()).ok() != Some(raw.clone());
+        json!({"ev": "str", "shape": shape, "v": v2, "panic": false, "to_str": cps_json(&to_str), "raw": cps_json(&raw),
+               "multi": multi.iter().map(|s| cps_json(s)).collect::<Vec<_>>(), "bytes": bytes_json(&bytes),
+               "display": cps_json(&format!("{}", pv)), "mult": pv.multiplicity(), "routediff": routediff})
+    }) {
+        Ok(e) => e,
+        Err(msg) => json!({"ev": "str", "shape": shape_of(v), "v": v, "panic": true, "msg": msg, "to_str": [], "raw": [], "multi": [], "bytes": [],
+                           "display": [], "mult": 0, "routediff": false}),
+    }
+}
+fn shape_of(v: &Value) -> String {
+    shape(v)
+}
+
+fn g_tag_event(v: &Value) -> Value {
+    let pv = g_build(v);
+    let pv2 = pv.clone();
+    let (vt, vtag) = match catch(move || Val::from(pv2).to_tag()) {
+        Ok(Ok(t)) => ("ok", json!([t.0, t.1])),
+        Ok(Err(_)) => ("err", json!([0, 0])),
+        Err(_) => ("panic", json!([0, 0])),
+    };
+    let (pt, ptag) = match catch(move || pv.tag()) {
+        Ok(Ok(t)) => ("ok", json!([t.0, t.1])),
+        Ok(Err(_)) => ("err", json!([0, 0])),
+        Err(_) => ("panic", json!([0, 0])),
+    };
+    json!({"ev": "tagconv", "shape": shape(v), "v": v, "vt": vt, "vtag": vtag, "pt": pt, "ptag": ptag})
+}
+
+fn g_ftext_event(text: &str, w: u64) -> Value {
+    let pv = PrimitiveValue::from(text);
+    let any = json!({"k": "any", "n": n_json(0), "b": ""});
+    match conv_float(&pv, w, false, "prim") {
+        Ok(res) => json!({"ev": "ftext", "text": cps_json(text), "shown": text, "w": w, "panic": false, "res": res}),
+        Err(_) => json!({"ev": "ftext", "text": cps_json(text), "shown": text, "w": w, "panic": true, "res": {"ok": false, "f": any}}),
+    }
+}
+
+fn g_has_nan(pv: &PrimitiveValue) -> bool {
+    match pv {
+        PrimitiveValue::F32(c) => c.iter().any(|x| x.is_nan()),
+        PrimitiveValue::F64(c) => c.iter().any(|x| x.is_nan()),
+        _ => false,
+    }
+}
+fn g_eq_event(a: &Value, b: &Value, pair: &str) -> Value {
+    let (pa, pb) = (g_build(a), g_build(b));
+    let ms = |p: &PrimitiveValue| Value::Array(p.to_multi_str().iter().map(|s| cps_json(s)).collect());
+    json!({"ev": "eq", "pair": pair, "a": a, "b": b, "ab": pa == pb, "ba": pb == pa, "aa": pa == pa.clone(), "bb": pb == pb.clone(),
+           "nan": g_has_nan(&pa) || g_has_nan(&pb), "la": pa.calculate_byte_len(), "lb": pb.calculate_byte_len(),
+           "ma": pa.multiplicity(), "mb": pb.multiplicity(), "sa": ms(&pa), "sb": ms(&pb)})
+}
+
+fn grow(n: usize, out: &str) {
+    std::fs::create_dir_all(out).expect("mkdir");
+    let path = format!("{out}/grow.ndjson");
+    let mut w = NdjsonWriter::create(&path);
+    let mut rng = Rng::new(seed_from_env() ^ 0x6011);
+    // text families
+    let fixed = [
+        json!({"var": "Strs", "items": []}),
+        json!({"var": "Strs", "items": [cps_json("")]}),
+        json!({"var": "Strs", "items": [cps_json("A\\B")]}),
+        json!({"var": "Strs", "items": [cps_json("A "), cps_json(" B\0")]}),
+        json!({"var": "Str", "items": [cps_json("Smith^John\0")]}),
+        json!({"var": "Str", "items": [cps_json("A\\B ")]}),
+        json!({"var": "Str", "items": [cps_json("tab\t")]}),
+        json!({"var": "Date", "items": [v_rec("DA", "D", 2014, 10, 12, "none", 0, 0, 0, false, 0)]}),
+        json!({"var": "Date", "items": [v_rec("DA", "M", 2014, 10, 0, "none", 0, 0, 0, false, 0)]}),
+        json!({"var": "U8", "items": [n_json(1), n_json(2), n_json(5)]}),
+        json!({"var": "Tags", "items": []}),
+    ];
+    for v in fixed.iter() {
+        w.emit(&g_str_event(v));
+        w.emit(&g_tag_event(v));
+    }
+    for _ in 0..n {
+        let v = g_rand_value(&mut rng);
+        w.emit(&g_str_event(&v));
+        if rng.below(4) == 0 || v["var"] == "Tags" {
+            w.emit(&g_tag_event(&v));
+        }
+    }
+    // floats from text
+    let ftexts = ["1e3", " +1.50 ", "NaN", "nan", "inf", "-inf", "infinity", "+Infinity", ".5", "5.", "1e", "1e+", "0x1p3", "1_000", "\u{661}",
+                  "1E2", "12.50e1", "-0.0", "1.0E+0", " 7", "7\0", "1e-2", "100e-2", "1.5e1", "25e-1", "", " ", "e5", "1 e5", "1e5 ", "--1", "+-1",
+                  "16777216", "16777217", "1e38", "1e39", "1e400", "123456789", "0.000", "00012", "1,5", "1.2.3", "1d3", "1f", "+.5e1"];
+    for t in ftexts.iter() {
+        for wd in [32u64, 64] {
+            w.emit(&g_ftext_event(t, wd));
+        }
+    }
+    for _ in 0..n / 4 {
+        let mant = rng.below(100000);
+        let t = match rng.below(5) {
+            0 => format!("{}e{}", mant, rng.below(4)),
+            1 => format!("{}.{}", mant, rng.below(1000)),
+            2 => format!("{}{}E-{}", mant, "0".repeat(rng.below(4) as usize), rng.below(4)),
+            3 => format!(" -{}.{}e+{} ", mant, rng.below(100), rng.below(3)),
+            _ => rand_text(&mut rng),
+        };
+        w.emit(&g_ftext_event(&t, if rng.coin() { 32 } else { 64 }));
+    }
+    // equality and encoded length: twins of one value, and random pairs
+    let s = |t: &str| cps_json(t);
+    let twins = [
+        (json!({"var": "Str", "items": [s("A")]}), json!({"var": "Strs", "items": [s("A")]}), "Str vs one-item Strs"),
+        (json!({"var": "Str", "items": [s("A ")]}), json!({"var": "Str", "items": [s("A")]}), "padded vs unpadded"),
+        (json!({"var": "Strs", "items": [s("A"), s("B")]}), json!({"var": "Strs", "items": [s("A\\B")]}), "two items vs one item with a backslash"),
+        (json!({"var": "Strs", "items": [s("A"), s("B")]}), json!({"var": "Str", "items": [s("A\\B")]}), "two items vs Str with a backslash"),
+        (json!({"var": "Strs", "items": []}), json!({"var": "Strs", "items": [s("")]}), "no items vs one empty string"),
+        (json!({"var": "Strs", "items": []}), json!({"var": "Empty", "items": []}), "empty Strs vs Empty"),
+        (json!({"var": "Str", "items": [s("")]}), json!({"var": "Empty", "items": []}), "empty Str vs Empty"),
+        (json!({"var": "U16", "items": [n_json(5)]}), json!({"var": "I32", "items": [n_json(5)]}), "same number, different binary variant"),
+        (json!({"var": "U16", "items": [n_json(5)]}), json!({"var": "Str", "items": [s("5")]}), "number vs its text"),
+        (json!({"var": "U16", "items": []}), json!({"var": "Empty", "items": []}), "empty U16 vs Empty"),
+        (json!({"var": "F32", "items": [tok_f32(f32::NAN)]}), json!({"var": "F32", "items": [tok_f32(f32::NAN)]}), "NaN"),
+        (json!({"var": "F64", "items": [tok_f64(0.0)]}), json!({"var": "F64", "items": [tok_f64(-0.0)]}), "0.0 vs -0.0"),
+        (json!({"var": "Str", "items": [s("ABC")]}), json!({"var": "Str", "items": [s("ABC")]}), "odd-length Str"),
+        (json!({"var": "U8", "items": [n_json(1), n_json(2), n_json(3)]}), json!({"var": "U8", "items": [n_json(1), n_json(2), n_json(3)]}), "odd number of bytes"),
+        (json!({"var": "Str", "items": [s("\u{e9}")]}), json!({"var": "Strs", "items": [s("\u{e9}")]}), "non-ASCII text"),
+    ];
+    for (a, b, what) in twins.iter() {
+        w.emit(&g_eq_event(a, b, what));
+    }
+    for _ in 0..n / 2 {
+        let a = g_rand_value(&mut rng);
+        let b = match rng.below(4) {
+            0 => a.clone(),
+            1 if a["var"] == "Str" => json!({"var": "Strs", "items": a["items"]}),
+            1 if a["var"] == "Strs" && j_arr(&a["items"]).len() == 1 => json!({"var": "Str", "items": a["items"]}),
+            _ => g_rand_value(&mut rng),
+        };
+        w.emit(&g_eq_event(&a, &b, "random pair"));
+    }
+    let lines = w.finish();
+    let mut rep = Report::new();
+    rep.cases = lines;
+    rep.extra.insert("trace".into(), Value::from(path));
+    rep.extra.insert("events".into(), Value::from(lines as u64));
+    rep.print();
+}
+
 fn main() {
     quiet_panics();
     let a = args_map();
@@ -705,6 +992,10 @@ fn main() {
         "record" => record(
             a.get("n").and_then(|s| s.parse().ok()).unwrap_or(4000),
             &a.get("out").cloned().unwrap_or_else(|| "work/C11/rec".into()),
+        ),
+        "grow" => grow(
+            a.get("n").and_then(|s| s.parse().ok()).unwrap_or(3000),
+            &a.get("out").cloned().unwrap_or_else(|| "work/C11/grow".into()),
         ),
         _ => {
             eprintln!("usage: drv_conv replay --cases F | record --n N --out D");
